@@ -1100,17 +1100,35 @@ class DomainMapping(CanBehaveLikeAVariable[T], ABC):
         if self._id_ in sources:
             yield sources
             return
+        # Only a mapping that stands where a condition is expected is interpreted as a boolean; as an operand,
+        # a selected expression or a constructor argument its value is passed on whatever its truthiness.
+        is_condition = self._is_condition_
         child_val = self._child_._evaluate__(sources, yield_when_false=self._yield_when_false_)
         for child_v in child_val:
             for v in self._apply_mapping_(child_v[self._child_._id_]):
                 values = copy(child_v)
-                if (not self._invert_ and v.value) or (self._invert_ and not v.value):
+                if not is_condition:
+                    self._is_false_ = False
+                elif (not self._invert_ and v.value) or (self._invert_ and not v.value):
                     self._is_false_ = False
                 else:
                     self._is_false_ = True
                 if self._yield_when_false_ or not self._is_false_:
                     values[self._id_] = v
                     yield values
+
+    @property
+    def _is_condition_(self) -> bool:
+        """
+        Whether this mapping is used as a condition (child of a logical operator, the condition of a query
+        descriptor or of a universal quantifier) rather than as a value.
+        """
+        parent = self._parent_
+        if isinstance(parent, QueryObjectDescriptor):
+            return parent._child_ is self
+        if isinstance(parent, ForAll):
+            return parent.condition is self
+        return isinstance(parent, LogicalOperator)
 
     @abstractmethod
     def _apply_mapping_(self, value: HashedValue) -> Iterable[HashedValue]:
